@@ -402,4 +402,75 @@ theorem gen_packHeaderParse (bs : Bytes) (h60 : bs.length = 60) :
   · simp [hm]
     rfl
 
+/-! ### the headers of the pack kinds, the pack locator -/
+
+/-- **The headers of the four pack kinds and the pack locator are parsed as the source parses them**: the
+    `parse` functions of `common/headers/{container,content,directory,manifest}_pack.rs` and of
+    `common/pack_locator.rs`, translated on every run into sequential parsers, give on every block of the size
+    the reader hands them (60 bytes, 32 for a locator) the fields the model's `decode` functions read at fixed
+    positions — same field, same width, same order, the padding skipped, the free data last. -/
+theorem gen_containerHeaderParse (bs : Bytes) (h60 : bs.length = 60) :
+    (Generated.containerHeaderParse bs).map' (fun r => (⟨r.1.1, r.1.2.1, r.1.2.2⟩ : ContainerHeader)) = ContainerHeader.decode bs := by
+  have t0 := takeLE_at bs 0 8 (by omega)
+  have t8 := takeLE_at bs 8 2 (by omega)
+  have t10 := takeBytes_at bs 10 26 (by omega)
+  have t36 := takeBytes_at bs 36 24 (by omega)
+  simp only [List.drop_zero, Nat.zero_add, Nat.reduceAdd] at t0 t8 t10 t36
+  have hlen : ¬ bs.length < 60 := by omega
+  simp only [Generated.containerHeaderParse, ContainerHeader.decode, t0, t8, t10, t36, Outcome.bind_ok'', hlen, if_false]
+  rfl
+
+theorem gen_contentHeaderParse (bs : Bytes) (h60 : bs.length = 60) :
+    (Generated.contentHeaderParse bs).map' (fun r => (⟨r.1.1, r.1.2.1, r.1.2.2.1, r.1.2.2.2.1, r.1.2.2.2.2⟩ : ContentHeader)) =
+      ContentHeader.decode bs := by
+  have t0 := takeLE_at bs 0 8 (by omega)
+  have t8 := takeLE_at bs 8 8 (by omega)
+  have t16 := takeLE_at bs 16 4 (by omega)
+  have t20 := takeLE_at bs 20 4 (by omega)
+  have t24 := takeBytes_at bs 24 12 (by omega)
+  have t36 := takeBytes_at bs 36 24 (by omega)
+  simp only [List.drop_zero, Nat.zero_add, Nat.reduceAdd] at t0 t8 t16 t20 t24 t36
+  have hlen : ¬ bs.length < 60 := by omega
+  simp only [Generated.contentHeaderParse, ContentHeader.decode, t0, t8, t16, t20, t24, t36, Outcome.bind_ok'', hlen, if_false]
+  rfl
+
+theorem gen_directoryHeaderParse (bs : Bytes) (h60 : bs.length = 60) :
+    (Generated.directoryHeaderParse bs).map'
+        (fun r => (⟨r.1.1, r.1.2.1, r.1.2.2.1, r.1.2.2.2.1, r.1.2.2.2.2.1, r.1.2.2.2.2.2.1, r.1.2.2.2.2.2.2⟩ : DirectoryHeader)) =
+      DirectoryHeader.decode bs := by
+  have t0 := takeLE_at bs 0 8 (by omega)
+  have t8 := takeLE_at bs 8 8 (by omega)
+  have t16 := takeLE_at bs 16 8 (by omega)
+  have t24 := takeLE_at bs 24 4 (by omega)
+  have t28 := takeLE_at bs 28 4 (by omega)
+  have t32 := takeLE_at bs 32 1 (by omega)
+  have t33 := takeBytes_at bs 33 3 (by omega)
+  have t36 := takeBytes_at bs 36 24 (by omega)
+  simp only [List.drop_zero, Nat.zero_add, Nat.reduceAdd] at t0 t8 t16 t24 t28 t32 t33 t36
+  have hlen : ¬ bs.length < 60 := by omega
+  simp only [Generated.directoryHeaderParse, DirectoryHeader.decode, t0, t8, t16, t24, t28, t32, t33, t36, Outcome.bind_ok'', hlen, if_false]
+  rfl
+
+theorem gen_manifestHeaderParse (bs : Bytes) (h60 : bs.length = 60) :
+    (Generated.manifestHeaderParse bs).map' (fun r => (⟨r.1.1, (r.1.2.1 / 65536, r.1.2.1 % 65536), r.1.2.2⟩ : ManifestHeader)) =
+      ManifestHeader.decode bs := by
+  have t0 := takeLE_at bs 0 2 (by omega)
+  have t2 := takeLE_at bs 2 8 (by omega)
+  have t10 := takeBytes_at bs 10 26 (by omega)
+  have t36 := takeBytes_at bs 36 24 (by omega)
+  simp only [List.drop_zero, Nat.zero_add, Nat.reduceAdd] at t0 t2 t10 t36
+  have hlen : ¬ bs.length < 60 := by omega
+  simp only [Generated.manifestHeaderParse, ManifestHeader.decode, t0, t2, t10, t36, Outcome.bind_ok'', hlen, if_false, sizedOffsetDecode]
+  rfl
+
+theorem gen_packLocatorParse (bs : Bytes) (h32 : bs.length = 32) :
+    (Generated.packLocatorParse bs).map' (fun r => (⟨r.1.1, r.1.2.1, r.1.2.2⟩ : PackLocator)) = PackLocator.decode bs := by
+  have t0 := takeBytes_at bs 0 16 (by omega)
+  have t16 := takeLE_at bs 16 8 (by omega)
+  have t24 := takeLE_at bs 24 8 (by omega)
+  simp only [List.drop_zero, Nat.zero_add, Nat.reduceAdd] at t0 t16 t24
+  have hlen : ¬ bs.length < 32 := by omega
+  simp only [Generated.packLocatorParse, PackLocator.decode, t0, t16, t24, Outcome.bind_ok'', hlen, if_false]
+  rfl
+
 end Jubako
